@@ -244,6 +244,65 @@ theorem release_by_handle_exact {b : Block} (hw : WF b) (cd : Int) (now : Nat) (
       refine ⟨?_, hl.2⟩
       rw [mc_attrAt hw _ _ _ relhOrds_allocated]; simp [hno, hl.1]
 
+/-! ## 7. ABA: a sequence number captured from an earlier allocation never matches a later one -/
+
+/-- `SeqLt` (every stored per-address sequence number is below the block's) and `WF` are invariants
+of every history in which clients follow the code's discipline: read + garbage collect, operate,
+`SequenceNumber++`, write — or drop the in-memory copy (`cstep`); the block's sequence number never
+decreases. -/
+theorem client_discipline_invariant {s : St} (hw : WF s.blk) (h : s.blk.SeqLt) (cs : List (Int × Op × Bool)) :
+    WF (crun s cs).blk ∧ (crun s cs).blk.SeqLt ∧ s.blk.seq ≤ (crun s cs).blk.seq :=
+  crun_inv hw h cs
+
+/-- ABA safety, auto-assign: take a sequence number `v1` stored for address `o` at some point,
+let ANY client-discipline history happen (release of `o`, cooldown, garbage collection, …), and let
+`o` then be handed out again by `autoAssign`. The new allocation carries a strictly larger sequence
+number, so a release request still naming `v1` is refused and changes nothing. -/
+theorem aba_stale_release_refused {s1 : St} (hw : WF s1.blk) (hlt : s1.blk.SeqLt) (o v1 : Nat)
+    (htok : s1.blk.seqFor[o]? = some (some v1)) (cs : List (Int × Op × Bool)) (cd : Int) (now : Nat)
+    (num : Nat) (h : Option Handle) (owner : Nat) (rsv : List Nat)
+    (ho : o ∈ ((((crun s1 cs).blk.gc cd now).1).autoAssign num h owner rsv).2) :
+    let b' := ((((crun s1 cs).blk.gc cd now).1).autoAssign num h owner rsv).1
+    v1 < b'.getSeq o ∧
+    ∀ (cd' : Int) (now' : Nat) (hd : Handle),
+      (b'.release cd' now' [⟨o, some v1, hd⟩]).1 = b' ∧ ∃ e, (b'.release cd' now' [⟨o, some v1, hd⟩]).2 = .err e := by
+  intro b'
+  obtain ⟨hw2, _, hge⟩ := crun_inv hw hlt cs
+  have hwg := gc_WF cd now hw2
+  have hseq : b'.getSeq o = (crun s1 cs).blk.seq := by
+    show ((((crun s1 cs).blk.gc cd now).1).autoAssign num h owner rsv).1.getSeq o = _
+    rw [aa_getSeq hwg num h owner rsv o ho, gc_seq]
+  have hv : v1 < b'.getSeq o := by
+    rw [hseq]; exact Nat.lt_of_lt_of_le (hlt o v1 htok) hge
+  refine ⟨hv, fun cd' now' hd => ?_⟩
+  exact stale_seq_never_frees b' cd' now' _ ⟨o, some v1, hd⟩ v1 (by simp [dedupe]) rfl (by simp only []; omega)
+
+/-- ABA safety, `assign` of a specific address. -/
+theorem aba_stale_release_refused_assign {s1 : St} (hw : WF s1.blk) (hlt : s1.blk.SeqLt) (o v1 : Nat)
+    (htok : s1.blk.seqFor[o]? = some (some v1)) (cs : List (Int × Op × Bool)) (cd : Int) (now : Nat)
+    (h : Option Handle) (owner : Nat)
+    (hok : ((((crun s1 cs).blk.gc cd now).1).assign o h owner).2 = .ok) :
+    let b' := ((((crun s1 cs).blk.gc cd now).1).assign o h owner).1
+    v1 < b'.getSeq o ∧
+    ∀ (cd' : Int) (now' : Nat) (hd : Handle),
+      (b'.release cd' now' [⟨o, some v1, hd⟩]).1 = b' ∧ ∃ e, (b'.release cd' now' [⟨o, some v1, hd⟩]).2 = .err e := by
+  intro b'
+  obtain ⟨hw2, _, hge⟩ := crun_inv hw hlt cs
+  have hwg := gc_WF cd now hw2
+  have hseq : b'.getSeq o = (crun s1 cs).blk.seq := by
+    show ((((crun s1 cs).blk.gc cd now).1).assign o h owner).1.getSeq o = _
+    rw [assign_ok_getSeq hwg o h owner hok, gc_seq]
+  have hv : v1 < b'.getSeq o := by
+    rw [hseq]; exact Nat.lt_of_lt_of_le (hlt o v1 htok) hge
+  refine ⟨hv, fun cd' now' hd => ?_⟩
+  exact stale_seq_never_frees b' cd' now' _ ⟨o, some v1, hd⟩ v1 (by simp [dedupe]) rfl (by simp only []; omega)
+
+/-- a freshly created block satisfies `SeqLt` (no sequence number is stored yet) -/
+theorem newBlock_seqLt (n seq0 : Nat) : (newBlock n seq0 none).SeqLt := by
+  intro o v h
+  simp only [newBlock, List.getElem?_replicate] at h
+  split at h <;> cases h
+
 /-- Well-formedness is an invariant of every history from a freshly created block (so the
 hypothesis `WF` of the theorems above is satisfied by every reachable block). -/
 theorem reachable_WF (n seq0 t : Nat) (ops : List Op) : WF (run { blk := newBlock n seq0 none, now := t } ops).blk :=
@@ -278,5 +337,11 @@ both and queues 0 before 1, although 1 has been released (not: deallocated) for 
 `fifo_reuse`'s notion (time of entering the free queue) the two are tied, and ties go by ordinal. -/
 example : (run exS [.release 5 [⟨1, none, []⟩], .tick 1, .release 5 [⟨0, none, []⟩], .tick 9, .gc 5]).blk.unalloc
     = [2, 3, 0, 1] := by decide
+
+-- ABA: address 0 allocated at seq 7, released, cooled down, re-allocated at seq 9; the old token 7 is refused
+def exABA : St := crun { blk := newBlock 4 7 none, now := 0 }
+  [(0, .auto 1 (some [97]) 2 [], true), (0, .release 0 [⟨0, some 7, []⟩], true), (0, .auto 4 (some [98]) 2 [], true)]
+example : exABA.blk.getSeq 0 = 9 := by decide
+example : (exABA.blk.release 0 0 [⟨0, some 7, []⟩]).2 = .err (some .seq) := by decide
 
 end CalicoVerif.C21
